@@ -36,6 +36,20 @@ struct V<'a> {
     stack: Vec<CfgPred>,
     refs: &'a mut Vec<RefRow>,
     states: &'a mut Vec<StateRow>,
+    /// references to `core::arch` / `std::arch` items, intrinsic-looking calls and `asm!` in files that are not a register
+    /// backend (`danger/impl_*.rs`): code every build runs before, or without, any CPU feature check
+    arch: &'a mut Vec<RefRow>,
+}
+
+/// `_mm256_add_ps`, `__cpuid`, `_xgetbv`, `vaddq_f32` …: an identifier that looks like a vendor intrinsic
+fn looks_like_intrinsic(name: &str) -> bool {
+    let b = name.as_bytes();
+    let underscore = name.starts_with('_') && name.trim_start_matches('_').chars().next().map_or(false, |c| c.is_ascii_lowercase())
+        && name.trim_start_matches('_').contains(|c: char| c == '_' || c.is_ascii_digit() || c.is_ascii_lowercase())
+        && name.len() > 3;
+    let neon = b.len() > 4 && b[0] == b'v' && name.contains('_') && name.chars().all(|c| c.is_ascii_lowercase() || c.is_ascii_digit() || c == '_')
+        && ["_f32", "_f64", "_s8", "_s16", "_s32", "_s64", "_u8", "_u16", "_u32", "_u64"].iter().any(|suf| name.ends_with(suf));
+    underscore || neon
 }
 
 /// std-prelude names that allocate: macros (`vec!`, `format!`), owning types and the slice / str methods that build them.
@@ -78,6 +92,18 @@ impl<'a> V<'a> {
         }
         if root == "std" || root == "alloc" {
             self.refs.push(RefRow { file: self.file.clone(), line, path: p.replace(' ', ""), cfg: self.stack.clone(), kind });
+        }
+        let is_backend = self.file.contains("/danger/impl_") && !self.file.ends_with("impl_test.rs");
+        if !is_backend {
+            let flat = p.replace(' ', "");
+            let segs: Vec<&str> = flat.split("::").collect();
+            let last = segs.last().map(|x| x.split('<').next().unwrap_or("")).unwrap_or("");
+            let detection = last == "is_x86_feature_detected" || last == "is_aarch64_feature_detected";
+            let archy = segs.iter().any(|x| *x == "arch") && (root == "core" || root == "std" || root == "arch");
+            let asm = kind == "macro" && (last == "asm" || last == "global_asm");
+            if !detection && (archy || asm || (segs.len() == 1 && kind == "path" && looks_like_intrinsic(last))) {
+                self.arch.push(RefRow { file: self.file.clone(), line, path: flat, cfg: self.stack.clone(), kind: if asm { "asm" } else if archy { "arch-path" } else { "intrinsic-call" } });
+            }
         }
         for w in STATE_WORDS {
             if p.replace(' ', "").split("::").any(|s| s.split('<').next() == Some(w)) {
@@ -289,6 +315,7 @@ fn cfg_list(c: &[CfgPred]) -> String {
 pub fn gen_refs(root: &Path, out: &mut Output) {
     let mut refs = vec![];
     let mut states = vec![];
+    let mut arch = vec![];
     let files = collect_files(root, "cfavml");
     for (rel, modcfg) in &files {
         let text = match fs::read_to_string(root.join(rel)) {
@@ -305,7 +332,7 @@ pub fn gen_refs(root: &Path, out: &mut Output) {
                 continue;
             },
         };
-        let mut v = V { file: rel.clone(), stack: modcfg.clone(), refs: &mut refs, states: &mut states };
+        let mut v = V { file: rel.clone(), stack: modcfg.clone(), refs: &mut refs, states: &mut states, arch: &mut arch };
         v.visit_file(&file);
     }
     let mut text = String::from("-- GENERATED by /verif/translator from /repo — do not edit.\nimport CfavmlModel.Prim.Tables\nnamespace Cfavml\nnamespace Tables\n\n");
@@ -322,6 +349,18 @@ pub fn gen_refs(root: &Path, out: &mut Output) {
         ));
     }
     text.push_str(&format!("def externalRefs : List ExternalRef := [\n  {}\n]\n\n", rows.into_iter().collect::<Vec<_>>().join(",\n  ")));
+    let mut arows = BTreeSet::new();
+    for r in &arch {
+        arows.insert(format!(
+            "{{ file := {}, line := {}, path := {}, kind := {}, cfg := {} }}",
+            lstr(&r.file),
+            r.line,
+            lstr(&r.path),
+            lstr(r.kind),
+            cfg_list(&r.cfg)
+        ));
+    }
+    text.push_str(&format!("def archRefs : List ExternalRef := [\n  {}\n]\n\n", arows.into_iter().collect::<Vec<_>>().join(",\n  ")));
     let mut srows = BTreeSet::new();
     for r in &states {
         srows.insert(format!("{{ file := {}, line := {}, what := {}, cfg := {} }}", lstr(&r.file), r.line, lstr(&r.what), cfg_list(&r.cfg)));
